@@ -437,6 +437,113 @@ func c20(c *Ctx) {
 		detail := "the location is guarded by " + lock + " (lock table) and is written by other roles (" + strings.Join(mutatorNames(mutators[a.field], 4), ", ") + "); here the lockset is " + held.String() + ": a data race in the sense of the Go memory model when this runs concurrently with the state machine / another HTTP handler"
 		r.Fail("C20.Q1", fi.Name(), construct, c.P.Pos(a.node.Pos()), detail)
 	}
+	// ---------- Q1b: fields of the lock-owning structs that are NOT in the lock table are read-only after construction: any
+	// write to one (assignment, ++, taking a slice of or the address of it — scratch buffers, caches, counters added later)
+	// outside construction needs one of the struct's mutexes in write mode
+	{
+		owners := map[*types.Named]bool{}
+		for fv := range guard {
+			_ = fv
+		}
+		for _, on := range [][2]string{{"ircserver", "IRCServer"}, {"outputstream", "OutputStream"}, {"raftstore", "LevelDBStore"}, {"api", "HTTP"}} { // not FSM: raft calls Apply, Snapshot and Restore from one goroutine, its unlisted fields are single-role
+			if n := c.P.Named(on[0], on[1]); n != nil {
+				owners[n] = true
+			}
+		}
+		nW := 0
+		for _, fi := range fns {
+			if isCtor[fi] || constructionOnly[fi] || fi.Body() == nil {
+				continue
+			}
+			if _, mv := unlockedMethods[fi]; mv {
+				continue
+			}
+			info := fi.Info()
+			g := graphs[fi]
+			if g == nil {
+				continue
+			}
+			check := func(se *ast.SelectorExpr, node ast.Node, how string) {
+				fv := astx.FieldSel(info, se)
+				if fv == nil {
+					return
+				}
+				if _, listed := guard[fv]; listed || isMutexType(fv.Type()) {
+					return
+				}
+				tv, ok := info.Types[se.X]
+				if !ok {
+					return
+				}
+				on := astx.NamedOf(tv.Type)
+				if on == nil || !owners[on] {
+					return
+				}
+				if c.freshLocal(fi, se.X, node) {
+					return
+				}
+				nW++
+				v := g.VertexOf(node)
+				held := entry[fi]
+				if v >= 0 {
+					held = flows[fi].must[v]
+				}
+				okW := false
+				for lk, mode := range held {
+					if strings.HasPrefix(lk, on.Obj().Name()+".") && mode == "W" {
+						okW = true
+					}
+				}
+				r.Check(okW, "C20.Q1", fi.Name(), how+" "+on.Obj().Name()+"."+fv.Name()+" (not in the lock table) under a write lock", c.P.Pos(node.Pos()), "lockset "+held.String(),
+					"a field of "+on.Obj().Name()+" that the lock table does not list is modified after construction without one of the struct's mutexes in write mode (lockset "+held.String()+"): methods of this type run concurrently on several goroutines, so this is a data race — e.g. a scratch buffer shared by all readers under the read lock")
+			}
+			ast.Inspect(fi.Body(), func(n ast.Node) bool {
+				switch x := n.(type) {
+				case *ast.FuncLit:
+					return false
+				case *ast.AssignStmt:
+					for _, l := range x.Lhs {
+						e := ast.Unparen(l)
+						for {
+							if ie, ok := e.(*ast.IndexExpr); ok {
+								e = ast.Unparen(ie.X)
+								continue
+							}
+							break
+						}
+						if se, ok := e.(*ast.SelectorExpr); ok {
+							check(se, x, "write of")
+						}
+					}
+				case *ast.IncDecStmt:
+					if se, ok := ast.Unparen(x.X).(*ast.SelectorExpr); ok {
+						check(se, x, "write of")
+					}
+				case *ast.SliceExpr:
+					if se, ok := ast.Unparen(x.X).(*ast.SelectorExpr); ok {
+						if tv, ok := info.Types[se]; ok {
+							if _, isArr := tv.Type.Underlying().(*types.Array); isArr {
+								check(se, x, "mutable slice of")
+							}
+						}
+					}
+				case *ast.UnaryExpr:
+					if x.Op == token.AND {
+						if se, ok := ast.Unparen(x.X).(*ast.SelectorExpr); ok {
+							if tv, ok := info.Types[se]; ok {
+								switch tv.Type.Underlying().(type) {
+								case *types.Array, *types.Basic:
+									check(se, x, "address of")
+								}
+							}
+						}
+					}
+				}
+				return true
+			})
+		}
+		r.Extra["unlisted_field_writes_checked"] = nW
+	}
 	r.Ok("C20.Q1", "module", "accesses with a sufficient lockset", "-", itoa(okCount)+" of "+itoa(len(accesses))+" field accesses in "+itoa(len(fns))+" functions hold their lock in a sufficient mode (or are construction / immutable-field accesses)")
 	if len(accesses) < 400 {
 		r.Break("only %d guarded accesses found (expected > 400)", len(accesses))
@@ -595,8 +702,20 @@ func c20(c *Ctx) {
 			if !ok {
 				return ""
 			}
-			switch tv.Type.Underlying().(type) {
+			switch t := tv.Type.Underlying().(type) {
 			case *types.Map, *types.Slice:
+			case *types.Struct:
+				// a struct copied by value still shares its map and slice fields with the original
+				hasRef := false
+				for k := 0; k < t.NumFields(); k++ {
+					switch t.Field(k).Type().Underlying().(type) {
+					case *types.Map, *types.Slice:
+						hasRef = true
+					}
+				}
+				if !hasRef {
+					return ""
+				}
 			default:
 				return ""
 			}
@@ -659,9 +778,6 @@ func c20(c *Ctx) {
 				return true
 			})
 		}
-		if len(carriers) == 0 {
-			continue
-		}
 		escaped := false
 		ast.Inspect(fi.Body(), func(n ast.Node) bool {
 			rs, ok := n.(*ast.ReturnStmt)
@@ -669,22 +785,33 @@ func c20(c *Ctx) {
 				return true
 			}
 			for _, res := range rs.Results {
-				what := ""
-				ast.Inspect(res, func(m ast.Node) bool {
-					switch x := m.(type) {
-					case *ast.CallExpr:
-						return false // encodings and copies
-					case *ast.Ident:
-						if c2 := carriers[astx.Obj(info, x)]; c2 != "" {
-							what = c2
+				// what the returned expression itself carries: the value as a whole, the operand of &, or an element of a
+				// composite literal (a selected scalar component such as x.lastseen.Messages[0].Id carries nothing)
+				var carries func(e ast.Expr) string
+				carries = func(e ast.Expr) string {
+					switch x := ast.Unparen(e).(type) {
+					case *ast.UnaryExpr:
+						if x.Op == token.AND {
+							return carries(x.X)
 						}
+					case *ast.Ident:
+						return carriers[astx.Obj(info, x)]
 					case *ast.SelectorExpr:
-						if w := wholeGuardedRef(x); w != "" {
-							what = w
+						return wholeGuardedRef(x)
+					case *ast.CompositeLit:
+						for _, el := range x.Elts {
+							v := el
+							if kv, ok := el.(*ast.KeyValueExpr); ok {
+								v = kv.Value
+							}
+							if w := carries(v); w != "" {
+								return w
+							}
 						}
 					}
-					return true
-				})
+					return ""
+				}
+				what := carries(res)
 				if what != "" {
 					escaped = true
 					r.Fail("C20.Q3", fi.Name(), "returns a structure that aliases "+what, c.P.Pos(rs.Pos()),
@@ -693,7 +820,7 @@ func c20(c *Ctx) {
 			}
 			return true
 		})
-		if !escaped {
+		if !escaped && len(carriers) > 0 {
 			r.Ok("C20.Q3", fi.Name(), "aliases of guarded maps stay inside the critical section", c.P.Pos(fi.Node().Pos()), fmt.Sprintf("%d local(s) alias guarded maps/slices; none is returned", len(carriers)))
 		}
 	}
